@@ -50,6 +50,15 @@
 (*                   progress ACROSS CALLS (package level, mutex-guarded:  *)
 (*                   no data race): a call meeting another call's entry    *)
 (*                   answers "compatible"                                  *)
+(*   StaleMemo       a unit definition remembers the last parsed text and  *)
+(*                   its value; the text is stored when the expression     *)
+(*                   matches, the value only at the end - an out-of-range  *)
+(*                   quantity in between leaves the previous value under   *)
+(*                   the new text, and is accepted from then on            *)
+(*   SharedError     the error for the use of a disabled property is ONE   *)
+(*                   shared value; every enclosing object adds its path    *)
+(*                   segment to it in place, so paths grow across calls    *)
+(*                   (and the slice is raced)                              *)
 (*   NoStepMutex     setupStepData without initializerMutex (step.go 201)  *)
 (*   EnumEarlyReturn enum compatibility returns at the first matching key  *)
 (*                   (enum.go 53-97 before its repair)                     *)
@@ -65,7 +74,7 @@
 EXTENDS Integers, Sequences, FiniteSets, TLC
 
 CONSTANTS G, MaxCalls, Kinds, Origins,
-          AliasDefaults, LazyUnsync, CollideEither, StripInPlace, StripRestore, DirtyScratch, SharedMarks, SharedInProgress, NoStepMutex,
+          AliasDefaults, LazyUnsync, CollideEither, StripInPlace, StripRestore, DirtyScratch, SharedMarks, SharedInProgress, StaleMemo, SharedError, NoStepMutex,
           EnumEarlyReturn, SubOverride
 
 VARIABLES inst,          \* [kind, origin]
@@ -166,6 +175,8 @@ UnitKinds == {"units", "units0"}
 Ops(kind) ==
     CASE kind \in UnitKinds ->
            {Call("unser", Arg("str_ok", Empty)), Call("unser", Arg("str_bad", Empty)),
+            \* a well-formed quantity that does not fit into 64 bits, alone and as two items of one list
+            Call("unser", Arg("str_over", Empty)), Call("unser", Arg("list_over", Empty)),
             Call("unser", Arg("num", Empty)), Call("fmt", Arg("num", Empty)), Call("ser", Arg("num", Empty))}
       [] kind = "objmap" ->
            {Call("unser", Arg("empty", Empty)), Call("unser", Arg("n1", Flat(1, Absent, Absent, Absent))),
@@ -174,6 +185,10 @@ Ops(kind) ==
            {Call("unser", Arg("empty", Empty)), Call("unser", Arg("n1", Flat(1, Absent, Absent, Absent))),
             Call("unser", Arg("s_a1", Flat(Absent, Absent, 1, Absent))), Call("unser", Arg("bad", Empty)),
             Call("ser", Arg("full", Flat(1, Absent, 1, 1)))}
+      [] kind = "disabled" ->
+           \* root{settings: ref S}, S{legacy: disabled without a reason, keep}
+           {Call("unser", Arg("uses_disabled", Empty)), Call("compat", Arg("uses_disabled", Empty)),
+            Call("unser", Arg("keeps", Empty))}
       [] kind = "chain" ->
            {Call("unser", Arg("scalar", Empty)), Call("unser", Arg("badscalar", Empty)),
             Call("unser", Arg("nested", Empty)), Call("compat", Arg("scalar", Empty))}
@@ -234,7 +249,7 @@ PureSet(i, op, arg) ==
     LET k == i.kind IN
     CASE k \in UnitKinds ->
            (CASE op = "unser" /\ arg.tok = "str_ok" -> {Res(TRUE, Empty, 5)}   \* 5 of the smallest declared unit
-              [] op = "unser" /\ arg.tok = "str_bad" -> {Res(FALSE, Empty, 0)}
+              [] op = "unser" /\ arg.tok \in {"str_bad", "str_over", "list_over"} -> {Res(FALSE, Empty, 0)}
               [] OTHER -> {Res(TRUE, Empty, 7)})
       [] k \in ObjKinds ->
            (IF op = "unser" THEN {PureObj(i, arg)} ELSE {Res(TRUE, arg.m, 0)})
@@ -242,6 +257,11 @@ PureSet(i, op, arg) ==
            (CASE arg.tok = "collide" -> {Res(TRUE, Empty, 1), Res(TRUE, Empty, 2), Res(FALSE, Empty, 0)}
               [] arg.tok = "single" -> {Res(TRUE, Empty, 1)}
               [] OTHER -> {Res(FALSE, Empty, 0)})
+      [] k = "disabled" ->
+           \* a rejection carries the path of the offending element: n = its length (two enclosing objects)
+           (CASE arg.tok = "keeps" -> {Res(TRUE, Empty, 1)}
+              [] op = "unser" -> {Res(FALSE, Empty, 2)}
+              [] OTHER -> {Res(FALSE, Empty, 0), Res(FALSE, Empty, 1), Res(FALSE, Empty, 2)})
       [] k = "chain" ->
            (CASE arg.tok = "badscalar" -> {Res(FALSE, Empty, 0)}
               [] op = "compat" -> {Res(TRUE, Empty, 0)}
@@ -285,7 +305,7 @@ Init ==
     /\ link = [r \in Refs |-> IF inst.origin = "rebuilt" THEN "unlinked" ELSE "inner"]
     /\ defaultsCache = InitialCaches(inst)
     /\ cell = Restrict(DeclRoot(inst.kind), SubPaths)
-    /\ unitCache = [u \in UnitIds |-> [sorted |-> "nil", re |-> "nil", names |-> "nil"]]
+    /\ unitCache = [u \in UnitIds |-> [sorted |-> "nil", re |-> "nil", names |-> "nil", memoText |-> "none", memoVal |-> "none"]]
     /\ table = [r \in Runs |-> "absent"]
     /\ initCount = [r \in Runs |-> 0]
     /\ scratch = {}
@@ -331,6 +351,8 @@ Acc(g) ==
       [] pc[g] = "S3b" -> IF AliasDefaults THEN Wr("cell.s") ELSE NoAcc
       [] pc[g] = "S4"  -> IF AliasDefaults THEN Rd("cell.s") ELSE NoAcc
       [] pc[g] = "S5"  -> IF AliasDefaults /\ ~SPresent(g) THEN Rd("cell.s") ELSE NoAcc
+      [] pc[g] = "E1"  -> IF SharedError THEN Wr("err.path") ELSE NoAcc
+      [] pc[g] = "E2"  -> IF SharedError THEN Wr("err.path") ELSE NoAcc
       [] pc[g] = "W1"  -> IF SharedMarks THEN Rd(Lv[loc[g].pos]) ELSE NoAcc
       [] pc[g] = "W2"  -> IF SharedMarks THEN Wr(Lv[loc[g].pos]) ELSE NoAcc
       [] pc[g] = "W3"  -> IF SharedMarks /\ loc[g].pos <= Depth THEN Wr(Lv[loc[g].pos]) ELSE NoAcc
@@ -366,10 +388,11 @@ Build ==
 
 \* ------------------------------------------------------------------ a call begins
 Entry(c) ==
-    CASE K \in UnitKinds /\ c.op = "unser" /\ c.arg.tok \in {"str_ok", "str_bad"} ->
+    CASE K \in UnitKinds /\ c.op = "unser" /\ c.arg.tok \in {"str_ok", "str_bad", "str_over", "list_over"} ->
              IF LazyUnsync THEN "P1" ELSE "PL"
       [] K \in UnitKinds /\ c.op = "fmt" -> IF LazyUnsync THEN "F1" ELSE "FL"
       [] K \in ObjKinds /\ c.op = "unser" /\ c.arg.tok # "bad" -> IF LazyUnsync THEN "D1" ELSE "DL"
+      [] K = "disabled" /\ c.arg.tok = "uses_disabled" -> "E1"
       [] K = "chain" /\ c.arg.tok \in {"scalar", "badscalar"} -> "W1"
       [] K = "compat2" -> "Q1"
       [] K = "objnest" /\ (c.op = "unsermid" \/ c.arg.tok \in LimToks) -> "N3"
@@ -479,6 +502,8 @@ ParseReadNames(g) ==
     /\ At(g, "P4")
     /\ SetLoc(g, "names", unitCache["u"].names)
     /\ Goto(g, "P5") /\ UNCHANGED unitCache /\ UnitFrame
+\* the text of the argument as the memo sees it ("none": the expression does not match, nothing is remembered)
+MemoText(tok) == CASE tok = "str_ok" -> "ok" [] tok \in {"str_over", "list_over"} -> "over" [] OTHER -> "none"
 ParseLookup(g) ==
     /\ At(g, "P5")
     \* a nil or still empty name table yields group 0 - the whole match - for every unit: the number is
@@ -486,8 +511,18 @@ ParseLookup(g) ==
     /\ LET seen == IF loc[g].names = "nil" THEN "nil" ELSE unitCache["u"].names
            good == seen = "full"
            want == CHOOSE r \in PureSet(inst, cur[g].op, cur[g].arg) : TRUE
-       IN SetLoc(g, "res", IF good \/ ~want.ok THEN want ELSE Res(FALSE, Empty, -1))
-    /\ Goto(g, IF LazyUnsync THEN "ret" ELSE "PU") /\ UNCHANGED unitCache /\ UnitFrame
+           plain == IF good \/ ~want.ok THEN want ELSE Res(FALSE, Empty, -1)
+           text == MemoText(cur[g].arg.tok)
+           memo == unitCache["u"]
+       IN IF ~StaleMemo THEN SetLoc(g, "res", plain) /\ UNCHANGED unitCache
+          ELSE IF text # "none" /\ memo.memoVal # "none" /\ memo.memoText = text
+          THEN \* DEVIATION: the remembered value is returned for the remembered text
+               SetLoc(g, "res", Res(TRUE, Empty, 5)) /\ UNCHANGED unitCache
+          ELSE /\ SetLoc(g, "res", plain)
+               \* the text is stored as soon as the expression matches, the value only when the quantity fits
+               /\ unitCache' = [unitCache EXCEPT !["u"].memoText = IF text # "none" THEN text ELSE @,
+                                                 !["u"].memoVal = IF text # "none" /\ plain.ok THEN "ok" ELSE @]
+    /\ Goto(g, IF LazyUnsync THEN "ret" ELSE "PU") /\ UnitFrame
 
 \* ------------------------------------------------------------------ units: format (units.go 230-241)
 FmtReadSorted(g) ==
@@ -592,6 +627,15 @@ Mine(g, shared) == IF shared THEN scratch ELSE loc[g].marks
 Put(g, shared, L, S) ==
     IF shared THEN scratch' = S /\ loc' = [loc EXCEPT ![g] = L]
     ELSE scratch' = scratch /\ loc' = [loc EXCEPT ![g] = [L EXCEPT !.marks = S]]
+
+\* the error for the use of a disabled property travels up through the enclosing objects; each adds its segment
+\* (scratch holds the segments of the shared error value under the deviation: one number per segment)
+ErrSegment(g, label, to, last) ==
+    /\ At(g, label)
+    /\ LET L == loc[g]
+           S == Mine(g, SharedError) \cup {Cardinality(Mine(g, SharedError)) + 1}
+       IN Put(g, SharedError, IF last THEN [L EXCEPT !.res = Res(FALSE, Empty, Cardinality(S))] ELSE L, S)
+    /\ Goto(g, to) /\ ScratchFrame
 
 \* inlineShorthandTerminates, started at level lvl: is the object at pos already on the walk?
 WalkRead(g) ==
@@ -727,6 +771,7 @@ Step(g) ==
     \/ SubPropagate(g, "S3a", "sa", "S3b") \/ SubPropagate(g, "S3b", "sb", "S4") \/ SubRead(g) \/ SubOwn(g)
     \* one-of, struct validation, steps
     \/ OneOfStrip(g) \/ OneOfMemberDone(g) \/ ValidateStruct(g) \/ NestPropagate(g) \/ NestMid(g)
+    \/ ErrSegment(g, "E1", "E2", FALSE) \/ ErrSegment(g, "E2", "ret", TRUE)
     \/ WalkRead(g) \/ WalkMark(g) \/ WalkClear(g) \/ WalkDone(g)
     \/ CmpBegin(g, "Q1", "pair.root", "Q2", "Q1x") \/ CmpRootUnderWay(g)
     \/ CmpBegin(g, "Q2", "pair.lim", "Q3", "Q4") \/ CmpLeaf(g) \/ CmpEnd(g)
